@@ -52,8 +52,25 @@ func buildArmedHist(c *core.Ctx, idx int) *armedHist {
 	if idx%5 == 4 && r.Bool() {
 		shape = 0
 	}
+	if idx%150 == 17 {
+		shape = 8
+	}
 	var armed *proto.Stmt
 	switch shape {
+	case 8:
+		// the armed INSERT crosses the split of the table's internal root
+		// (the 1165th row): the root moves in mid-batch on a three-level tree
+		t := pickUsable(h, r)
+		for len(t.Rows) < 1120 {
+			ah.stmts = append(ah.stmts, h.Burst(t, r.Range(200, 400)))
+		}
+		// bring the table to 1140-1160 cells (deleted rows keep their cells)
+		armed = h.Insert(t, 1)
+		armed.Rows = nil
+		for i := 0; i < 70; i++ {
+			armed.Rows = append(armed.Rows, h.NewRow(t, 0))
+		}
+		ah.shape = "insert-internal-root-move"
 	case 6:
 		// a statement whose log records total tens of kilobytes
 		t := pickUsable(h, r)
@@ -156,7 +173,7 @@ func checkC03(c *core.Ctx) []core.Floor {
 	c.Rule = "seeded prefix histories followed by one multi-row INSERT/UPDATE/DELETE (2-14 row operations; a third of the INSERTs move the table's root in mid-batch); a crash image is taken immediately before EVERY write and fsync the statement issues on the log file, in two cuts (log as written / log as of the last fsync). Each image is recovered in a fresh process; the state must equal pre-state + first j row operations for some j; recovery is repeated; then 3-8 further statements are checked against the model continued from that j-state. Distinct = image; non-trivial = recovery of the image replayed at least one log record."
 	c.Assume = []string{"process-death crash model; the fsync cut applies to the log only", "the data file is untouched while a statement appends to the log (timer off: a flush cannot interleave, which is C13's claim)"}
 	drv := mustDriver(c, false)
-	n := 1500
+	n := 1200
 	if !core.Quick(c) {
 		n = 30000
 	}
@@ -164,7 +181,7 @@ func checkC03(c *core.Ctx) []core.Floor {
 		runArmedHist(c, drv, buildArmedHist(c, i))
 	})
 	return []core.Floor{
-		{Key: "images_verified", Min: 1000}, {Key: "armed_insert-root-move", Min: 10}, {Key: "armed_insert-bulk", Min: 10}, {Key: "armed_insert-root-move-two-level-catalog", Min: 5}, {Key: "log_batches_over_16KiB", Min: 10}, {Key: "armed_update", Min: 10}, {Key: "armed_delete", Min: 10},
+		{Key: "images_verified", Min: 1000}, {Key: "armed_insert-root-move", Min: 10}, {Key: "armed_insert-bulk", Min: 10}, {Key: "armed_insert-internal-root-move", Min: 3}, {Key: "armed_insert-root-move-two-level-catalog", Min: 5}, {Key: "log_batches_over_16KiB", Min: 10}, {Key: "armed_update", Min: 10}, {Key: "armed_delete", Min: 10},
 		{Key: "images_insert_sync_f", Min: 1}, {Key: "images_update_sync_f", Min: 1}, {Key: "images_delete_sync_f", Min: 1},
 		{Key: "images_insert_len_w", Min: 1}, {Key: "images_update_len_w", Min: 1}, {Key: "images_delete_len_w", Min: 1},
 		{Key: "continuations_ok", Min: 500},
